@@ -67,6 +67,11 @@ def processLine (line : String) : String :=
           let gs := nat m "sends"; let gf := str m "final"
           let atts := (arr m "attempts").map asInt
           let who := s!"msg={str m "id"} target={str m "target"} max={mx}"
+          -- C07: every send carries exactly the headers and the payload the message was stored with
+          let foreign := (strs m "carried").find? (fun c => c != str m "stored")
+          if has m "stored" && foreign.isSome then
+            some s!"PROP C07 pushed-request-differs-from-the-stored-message {who} stored={(str m "stored").quote} carried={(foreign.getD "").quote} {tag}"
+          else
           if gs > mx.toNat + 1 then some s!"PROP C06 more-sends-than-the-retry-budget-allows {who} sends={gs} {tag}"
           else if !(gf == "ack" || gf == "dead:no_retry" || gf == "dead:max_retries" || gf == "dead:policy_denied") then
             some s!"PROP C06 message-not-settled-with-a-documented-outcome {who} final={gf} {tag}"
